@@ -70,7 +70,9 @@ Count(t) == IF t[1] = "L" THEN <<1, 0, 0>>
             ELSE LET a == Count(t[2]) b == Count(t[3]) IN <<a[1] + b[1], a[2] + b[2] + 1, a[3] + b[3]>>
 
 \* clauses of the design check (MCMerkle)
-BatchEqualsTree(n) == \A k \in 1..n : BatchTree(n)[k] = Tree(k)
+\* BatchTree(n)[k] is BatchRoot(k) for every n >= k (the loop of merkle.BatchTree computes roots[k] from values[0..k)
+\* only), so "BatchTree(n)[k] = Tree(k) for all 1 <= k <= n <= N" is  BatchRoot(k) = Tree(k) for all k <= N
+BatchEqualsTree(n) == BatchRoot(n) = Tree(n) /\ DOMAIN BatchTree(n) = 1..n
 KeyBindsEveryLeafInOrder(n) == Leaves(Tree(n)) = [i \in 1..n |-> i - 1]
 KeyBindsLength(n) == \A k \in 1..n : k # n => Tree(k) # Tree(n)
 =============================================================================
